@@ -99,7 +99,24 @@ func r34FlagTable(c *core.Ctx) {
 		call *ast.CallExpr
 	}
 	var reads []readSite
-	ast.Inspect(m.Decl.Body, func(n ast.Node) bool {
+	// every function of package main (the action may delegate reading flags to helpers)
+	var mainBodies []ast.Node
+	var mainSSA []*ssa.Function
+	for _, f := range sortedFuncs(c.P) {
+		if f.Pkg == m.Pkg && f.Decl.Body != nil {
+			mainBodies = append(mainBodies, f.Decl.Body)
+			if f.SSA != nil {
+				mainSSA = append(mainSSA, f.SSA)
+				mainSSA = append(mainSSA, f.SSA.AnonFuncs...)
+			}
+		}
+	}
+	inspectMain := func(fn func(ast.Node) bool) {
+		for _, b := range mainBodies {
+			ast.Inspect(b, fn)
+		}
+	}
+	inspectMain(func(n ast.Node) bool {
 		call, ok := n.(*ast.CallExpr)
 		if !ok || len(call.Args) != 1 {
 			return true
@@ -134,7 +151,7 @@ func r34FlagTable(c *core.Ctx) {
 	}
 	// snap.Config fields from the flag of the same name
 	nCfg := 0
-	ast.Inspect(lit.Body, func(n ast.Node) bool {
+	inspectMain(func(n ast.Node) bool {
 		cl, ok := n.(*ast.CompositeLit)
 		if !ok || core.TypeShort(info.TypeOf(cl)) != "snap.Config" {
 			return true
@@ -169,11 +186,13 @@ func r34FlagTable(c *core.Ctx) {
 	// PAGESIZE -> TargetGeopackage.pagesize ; OVERWRITE -> guard of os.Remove
 	idx := c.P.SiteIndex(c.P.VTA())
 	flagValue := func(name string) ssa.Value {
-		for _, b := range sf.Blocks {
-			for _, in := range b.Instrs {
-				if call, ok := in.(*ssa.Call); ok && strings.HasPrefix(core.StaticCalleeID(call), cliPkg+".Context.") && len(call.Call.Args) == 2 {
-					if k, ok := call.Call.Args[1].(*ssa.Const); ok && k.Value != nil && strings.Trim(k.Value.ExactString(), `"`) == name {
-						return call
+		for _, fn := range mainSSA {
+			for _, b := range fn.Blocks {
+				for _, in := range b.Instrs {
+					if call, ok := in.(*ssa.Call); ok && strings.HasPrefix(core.StaticCalleeID(call), cliPkg+".Context.") && len(call.Call.Args) == 2 {
+						if k, ok := call.Call.Args[1].(*ssa.Const); ok && k.Value != nil && strings.Trim(k.Value.ExactString(), `"`) == name {
+							return call
+						}
 					}
 				}
 			}
@@ -461,25 +480,73 @@ func r36ActionOrder(c *core.Ctx) {
 			"source.Table and every target.Table are set to the loop's table before processBySnapping, nothing touches them afterwards in the iteration",
 			fmt.Sprintf("source set=%v, all targets set=%v, assignment after/other=%q: features of one table would be read from / written to another table", srcSet, tgtSet, after))
 		// the targets map handed to processing holds the same pointers, key for key
+		// (the copy loop in the action, or in a module helper that returns the copy of its parameter)
 		okCopy := false
-		ast.Inspect(lit.Body, func(n ast.Node) bool {
-			r, ok := n.(*ast.RangeStmt)
-			if !ok || len(r.Body.List) != 1 {
-				return true
+		dst := core.ObjOf(info, call.Args[1])
+		var src types.Object
+		var srcT types.Type
+		if dst != nil {
+			if src = keyForKeyCopy(info, lit.Body, dst); src != nil {
+				srcT = src.Type()
+			} else if def := singleDef(info, lit.Body, dst); def != nil {
+				if hc, isCall := ast.Unparen(def).(*ast.CallExpr); isCall {
+					if callee := core.Callee(info, hc); callee != nil {
+						if h := c.P.ByObj[callee.Origin()]; h != nil && h.Decl.Body != nil && core.IsModPath(h.Pkg.PkgPath) {
+							hs := h.Obj.Type().(*types.Signature)
+							nret := 0
+							var retObj types.Object
+							ast.Inspect(h.Decl.Body, func(n ast.Node) bool {
+								if _, isLit := n.(*ast.FuncLit); isLit {
+									return false
+								}
+								if ret, isRet := n.(*ast.ReturnStmt); isRet {
+									nret++
+									if len(ret.Results) == 1 {
+										retObj = core.ObjOf(h.Pkg.TypesInfo, ret.Results[0])
+									}
+								}
+								return true
+							})
+							if nret == 1 && retObj != nil {
+								if hsrc := keyForKeyCopy(h.Pkg.TypesInfo, h.Decl.Body, retObj); hsrc != nil {
+									for i := 0; i < hs.Params().Len() && i < len(hc.Args); i++ {
+										if hs.Params().At(i) == hsrc {
+											src = core.ObjOf(info, hc.Args[i])
+											srcT = hsrc.Type()
+										}
+									}
+								}
+							}
+						}
+					}
+				}
 			}
-			as, ok := r.Body.List[0].(*ast.AssignStmt)
-			if !ok || len(as.Lhs) != 1 {
-				return true
-			}
-			if ix, ok := as.Lhs[0].(*ast.IndexExpr); ok && core.ObjOf(info, ix.Index) == core.ObjOf(info, r.Key) && r.Key != nil &&
-				core.ObjOf(info, as.Rhs[0]) == core.ObjOf(info, r.Value) && r.Value != nil && core.ObjOf(info, ix.X) == core.ObjOf(info, call.Args[1]) {
-				okCopy = true
-			}
-			return true
-		})
+		}
+		okCopy = src != nil && strings.HasPrefix(core.TypeShort(mapElem(srcT)), "gpkg.TargetGeopackage")
 		c.Check(R, "targets-map-copied-per-key/main.Action", lit.Pos(), okCopy, "processing receives targets[id] = gpkgTargets[id] for every id", "the map of targets handed to processing is not a key-for-key copy of the opened targets")
 	}
 	c.Floor(R, 7)
+}
+
+// keyForKeyCopy finds `for k, v := range src { dst[k] = v }` (nothing else in the loop) in body and returns src.
+func keyForKeyCopy(info *types.Info, body ast.Node, dst types.Object) types.Object {
+	var src types.Object
+	ast.Inspect(body, func(n ast.Node) bool {
+		r, ok := n.(*ast.RangeStmt)
+		if !ok || len(r.Body.List) != 1 || r.Key == nil || r.Value == nil {
+			return true
+		}
+		as, ok := r.Body.List[0].(*ast.AssignStmt)
+		if !ok || len(as.Lhs) != 1 || len(as.Rhs) != 1 {
+			return true
+		}
+		if ix, ok := as.Lhs[0].(*ast.IndexExpr); ok && core.ObjOf(info, ix.Index) == core.ObjOf(info, r.Key) &&
+			core.ObjOf(info, as.Rhs[0]) == core.ObjOf(info, r.Value) && core.ObjOf(info, ix.X) == dst {
+			src = core.ObjOf(info, r.X)
+		}
+		return true
+	})
+	return src
 }
 
 func mapElem(t types.Type) types.Type {
